@@ -124,7 +124,15 @@ def run_case(acc, rnd, tier, case):
     hooks = {}          # target id -> list of [countdown, sender index, handle to detach]
     stats = dict(inside=0)
 
+    bombs = {}          # target id -> deliveries left before that receiver fails once
+
     def run_hooks(tid):
+        if tid in bombs:
+            bombs[tid] -= 1
+            if bombs[tid] <= 0:
+                del bombs[tid]
+                acc.count('receiver_raised_during_delivery')
+                raise RuntimeError('planned failure of receiver %r' % (tid,))
         for h in hooks.get(tid, []):
             if h[0] is None:
                 continue
